@@ -15,6 +15,7 @@ class Emitter:
         lw.late_records = []
         lw.lambda_fns = []
         lw.used_globals = set()
+        lw.param_names = {}
         lw.node_by_id = {}
         self.contracts = contracts or {}
         self.done = {}       # cname -> list of lines
@@ -37,7 +38,8 @@ class Emitter:
         as_locals = any(re.fullmatch(p, f.cname) for p in lw.cfg.get('params_as_locals', []))
         for p in f.params():
             t = lw.te.parse(qt(p))
-            name = p.get('name') or '__unnamed%d' % len(ps)
+            name = p.get('name') or '__p%d' % len(ps)
+            lw.param_names[p['id']] = name
             if t.is_ref():
                 ps.append(lw.ctype(t, name))
             elif t.is_record() and not lw.is_trivial_class(t):
